@@ -35,7 +35,9 @@ PrX == {<<Pr(5, FALSE, 0, 5, 9), Pr(0, TRUE, 0, 0, 255), Pr(7, TRUE, 0, 7, 0)>>,
 Orders == {<<":method", ":path", ":authority", ":scheme">>, <<":method", ":authority", ":scheme", ":path">>, <<":method", ":scheme", ":path", ":authority">>,
            <<":method", ":path", ":scheme">>,
            \* regular fields between the pseudo-headers (malformed per RFC 7540 8.1.2.1, but the order of the pseudo-headers is still defined)
-           <<":method", "accept-encoding", ":scheme", ":path", ":authority">>, <<"accept-encoding", ":method", ":path", ":scheme">>}
+           <<":method", "accept-encoding", ":scheme", ":path", ":authority">>, <<"accept-encoding", ":method", ":path", ":scheme">>,
+           \* a pseudo-header the scheme has no letter for (extended CONNECT, RFC 8441), and a response pseudo-header in a request
+           <<":method", ":protocol", ":scheme", ":path", ":authority">>, <<":protocol", ":method", ":path", ":status">>}
 Framings == {Plain, [Plain EXCEPT !.pad = 3], [Plain EXCEPT !.prio = <<[excl |-> FALSE, dep |-> <<0, 0>>, weight |-> 15]>>], [Plain EXCEPT !.cuts = <<2>>],
              \* padding AND priority fields (pad length first, then dependency and weight), also with a continuation
              [Plain EXCEPT !.pad = 3, !.prio = <<[excl |-> FALSE, dep |-> <<0, 0>>, weight |-> 15]>>],
